@@ -6,6 +6,7 @@ package main
 import (
 	"go/token"
 	"go/types"
+	"strings"
 
 	"golang.org/x/tools/go/ssa"
 )
@@ -132,6 +133,10 @@ func fieldAccesses(fn *ssa.Function) []fieldAccess {
 						continue
 					}
 					if t, f, b, ok := fieldOfAddr(fa); ok {
+						// a repository callee that provably only reads through the pointer is a reader
+						if g := cc.StaticCallee(); g != nil && len(g.Blocks) > 0 && strings.HasPrefix(pkgOf(g), repoMod) && !paramMayBeWritten(g, argIndexOf(cc, fa), 2) {
+							continue
+						}
 						add(in, t, f, b, "addrarg", true)
 					}
 				}
@@ -175,4 +180,125 @@ func isSyncType(t types.Type) bool {
 		return p == "sync" || p == "sync/atomic"
 	}
 	return false
+}
+
+
+func argIndexOf(cc *ssa.CallCommon, v ssa.Value) int {
+	for i, a := range cc.Args {
+		if a == v {
+			return i
+		}
+	}
+	return -1
+}
+
+// paramMayBeWritten: the function may store through its idx-th parameter (a pointer): a store whose
+// address derives from it, copy() into it, or handing it (or an address derived from it) to a call that
+// may write (unknown callees: assumed to write). Reading loads, slicing it as the source of append or
+// copy, and comparisons are not writes.
+func paramMayBeWritten(g *ssa.Function, idx int, depth int) bool {
+	if idx < 0 || idx >= len(g.Params) {
+		return true
+	}
+	derived := map[ssa.Value]bool{g.Params[idx]: true}
+	changed := true
+	for changed {
+		changed = false
+		allInstrs(g, func(in ssa.Instruction) {
+			v, ok := in.(ssa.Value)
+			if !ok || derived[v] {
+				return
+			}
+			switch x := in.(type) {
+			case *ssa.FieldAddr:
+				if derived[x.X] {
+					derived[v], changed = true, true
+				}
+			case *ssa.IndexAddr:
+				if derived[x.X] {
+					derived[v], changed = true, true
+				}
+			case *ssa.Slice:
+				if derived[x.X] {
+					derived[v], changed = true, true
+				}
+			case *ssa.Phi:
+				for _, e := range x.Edges {
+					if derived[e] {
+						derived[v], changed = true, true
+					}
+				}
+			case *ssa.ChangeType:
+				if derived[x.X] {
+					derived[v], changed = true, true
+				}
+			}
+		})
+	}
+	written := false
+	allInstrs(g, func(in ssa.Instruction) {
+		switch x := in.(type) {
+		case *ssa.Store:
+			if derived[x.Addr] {
+				written = true
+			}
+			if derived[x.Val] {
+				written = true // escapes into memory
+			}
+		case *ssa.MapUpdate:
+			if derived[x.Value] || derived[x.Key] {
+				written = true
+			}
+		case *ssa.MakeClosure:
+			for _, b := range x.Bindings {
+				if derived[b] {
+					written = true
+				}
+			}
+		case *ssa.Return:
+			for _, r := range x.Results {
+				if derived[r] {
+					written = true // handed back to the caller
+				}
+			}
+		case ssa.CallInstruction:
+			cc := x.Common()
+			if bi, ok := cc.Value.(*ssa.Builtin); ok {
+				switch bi.Name() {
+				case "copy":
+					if len(cc.Args) > 0 && derived[cc.Args[0]] {
+						written = true
+					}
+				case "append":
+					// append(p[:], …): p's array has len == cap, a new array is allocated; as later source operands p is only read
+					if len(cc.Args) > 0 && derived[cc.Args[0]] {
+						if sl, isSl := cc.Args[0].(*ssa.Slice); !isSl || sl.High != nil || sl.Max != nil {
+							written = true
+						}
+					}
+				case "len", "cap":
+				default:
+					for _, a := range cc.Args {
+						if derived[a] {
+							written = true
+						}
+					}
+				}
+				return
+			}
+			for i, a := range cc.Args {
+				if !derived[a] {
+					continue
+				}
+				h := cc.StaticCallee()
+				if h == nil || len(h.Blocks) == 0 || depth == 0 || paramMayBeWritten(h, i, depth-1) {
+					written = true
+				}
+			}
+			if cc.IsInvoke() && derived[cc.Value] {
+				written = true
+			}
+		}
+	})
+	return written
 }
